@@ -134,7 +134,7 @@ def run(ctx):
     near = [c for c in lat if c.get('start') != 'perp']
     nq = 96 if q else 1200
     lat = near[: nq - nq // 4] + perp[: nq // 4]
-    recs = core.pmap(rec_fit, list(enumerate(lat)), chunksize=1)
+    recs = core.pmap(rec_fit, list(enumerate(lat)), chunksize=1, on_raise='drop')
     recs += [rec_polar(ctx.seed * 100 + k) for k in range(40 if q else 400)]
     ver = core.validate_batch(ctx, 'Trace_Iso', recs, 'Trace:Iso')
     for r in recs:
